@@ -74,7 +74,7 @@ class TypeScriptNestingAnalyzer(TypeScriptBaseAnalyzer):
                 max_depth = current_depth
                 max_depth_line = node.start_point[0] + 1
 
-            new_depth = current_depth + 1 if node.type in self.NESTING_NODE_TYPES else current_depth
+            new_depth = current_depth + 1 if self._increases_depth(node) else current_depth
 
             for child in node.children:
                 visit_node(child, new_depth)
@@ -84,6 +84,16 @@ class TypeScriptNestingAnalyzer(TypeScriptBaseAnalyzer):
             visit_node(child, 1)
 
         return max_depth, max_depth_line
+
+    def _increases_depth(self, node: Node) -> bool:
+        """Check if node opens a new nesting level (an else-if continues its chain, like elif)."""
+        if node.type not in self.NESTING_NODE_TYPES:
+            return False
+        parent = node.parent
+        is_else_if = (
+            node.type == "if_statement" and parent is not None and parent.type == "else_clause"
+        )
+        return not is_else_if
 
     def find_all_functions(self, root_node: Node) -> list[tuple[Node, str]]:
         """Find all function definitions in TypeScript AST.
